@@ -16,6 +16,8 @@ inductive Cond where
   | nonEmpty (p : Path)               -- len(p) > 0
   | isEmpty (p : Path)                -- len(p) == 0
   | sameLine (p q : Path)             -- fset.Position(p.Pos()).Line == fset.Position(q.End()).Line
+  | isKind (p : Path) (k : String)    -- `_, ok := p.(*ast.k)` … ok
+  | tt
   | and (a b : Cond)
   | or (a b : Cond)
   | not (a : Cond)
@@ -37,5 +39,22 @@ inductive Act where
     (`default` is the last arm, named `["*"]`) -/
 structure Walker where
   arms : List (List String × List Act)
+
+/-- actions of one arm of the `ast.Inspect` callback of `processControlStatements`; `tok` names a
+    `token.Pos` field (`If`, `Switch`, `Case`, `For`, `Lbrace`, `Colon`) of the node at `p` -/
+inductive CAct where
+  | breakIf (c : Cond)                               -- if c { break }   (leaves the arm)
+  | setLine (p : Path) (tok : String)                -- changed = t.isLineChanged(fset.Position(p.tok).Line)
+  | orRange (c : Cond) (p q : Path)                  -- if !changed && c { changed = t.isLineChangedRange(line(p.Pos()), line(q.End())) }
+  | orAnyRange (c : Cond) (l : Path)                 -- if !changed && c { for _, e := range l { changed = t.isLineChangedRange(line(e.Pos()), line(e.End())); if changed { break } } }
+  | ifChanged (c : Cond) (body : List CAct)          -- if changed && c { body }
+  | force (p : Path) (tok : String)                  -- t.forceMarkInsert(fset.Position(p.tok).Line + 1)
+  | guard (c : Cond) (body : List CAct)              -- if c { body }
+  | each (p : Path) (v : String) (body : List CAct)  -- for _, v := range p { body }
+
+/-- `ast.Inspect(node, func(n ast.Node) bool { if n == nil { return false }; var changed bool;
+    switch n := n.(type) { arms… }; return true })` -/
+structure Inspector where
+  arms : List (List String × List CAct)
 
 end GoatSpec.WalkIR
